@@ -91,24 +91,49 @@ func H_doinit_total() {
 	stdOut = vDiscard{}
 	exiter = func(code int) { panic(vExitPanic{code}) }
 	app := App("app", "")
+	onSub := vParamInt("sub") == 1 // the spec belongs to a sub-command, reached under any error policy
 	app.ErrorHandling = flag.ContinueOnError
-	app.Spec = spec
-	app.Bool(BoolOpt{Name: "a aa"})
-	app.Strings(StringsOpt{Name: "o oo"})
-	app.Strings(StringsArg{Name: "X"})
 	hooks := 0
-	app.Before = func() { hooks++ }
-	app.After = func() { hooks++ }
-	app.Action = func() { hooks++ }
+	declare := func(c *Cmd) {
+		c.Spec = spec
+		c.Bool(BoolOpt{Name: "a aa"})
+		c.Bool(BoolOpt{Name: "b bb"})
+		c.Strings(StringsOpt{Name: "o oo"})
+		c.Strings(StringsOpt{Name: "e ee"})
+		c.Strings(StringsArg{Name: "X"})
+		c.Strings(StringsArg{Name: "Y"})
+		c.Before = func() { hooks++ }
+		c.After = func() { hooks++ }
+		c.Action = func() { hooks++ }
+	}
+	argv := []string{"app", "--", "x"}
+	if onSub {
+		app.ErrorHandling = []flag.ErrorHandling{flag.ContinueOnError, flag.ExitOnError, flag.PanicOnError}[vChoice("policy", 3)]
+		app.Command("c", "", declare)
+		argv = []string{"app", "c", "--", "x"}
+	} else {
+		declare(app.Cmd)
+	}
 	vLimitCalls("fsm.State.simplifySelf", 40*(len(spec)+2)*(len(spec)+2))
 	var rec interface{}
 	func() {
 		defer func() { rec = recover() }()
-		app.Run([]string{"app", "--", "x"})
+		app.Run(argv)
 	}()
+	// the reference lexer and grammar (ref.go) say whether the spec is well-formed over the table
+	_, wellFormed := rParseSpec(spec)
+	if _, isExit := rec.(vExitPanic); isExit {
+		rec = nil // a usage error under ExitOnError: the spec itself compiled
+	}
+	if e, isErr := rec.(error); isErr && app.ErrorHandling == flag.PanicOnError {
+		if _, isPE := e.(*lexer.ParseError); !isPE {
+			rec = nil // a usage error under PanicOnError: the spec itself compiled
+		}
+	}
 	if rec == nil {
 		vCover("compiled")
 		vObserve("compiled", true)
+		vAssert(wellFormed, "C08: an ill-formed spec must make Run panic with the spec error before anything runs")
 		return
 	}
 	vObserve("compiled", false)
@@ -116,8 +141,10 @@ func H_doinit_total() {
 	pe, isPE := rec.(*lexer.ParseError)
 	vAssert(isPE, "Run panicked with something that is not a *lexer.ParseError")
 	vCover("spec-error")
+	vAssert(!wellFormed, "C08: Run rejects a spec that is well-formed per the spec grammar")
 	vObserve("pos", pe.Pos)
 	vAssert(pe.Pos >= 0 && pe.Pos <= len(spec), "spec error position outside the string")
+	vAssert(pe.Pos <= len(pe.Input), "spec error position outside the string it reports")
 	vAssert(hooks == 0, "an Action or interceptor ran although the spec was rejected")
 	_ = pe.Error()
 }
